@@ -103,7 +103,7 @@ theorem sigFrom_cons (alpha c1 : K) (as bs as' bs' : List K) (u0 : K) (U : List 
     simp only [sigFrom, ih', delayFrom_cons, onePoleFrom, List.map_cons]
     rw [ha i (Nat.lt_succ_self i), hb i (Nat.lt_succ_self i)]
 
-theorem getD_replicate_zero (n i : Nat) : (List.replicate n (0 : K)).getD i 0 = 0 := by
+theorem getD_replicate_zero' (n i : Nat) : (List.replicate n (0 : K)).getD i 0 = 0 := by
   simp only [List.getD_eq_getElem?_getD, List.getElem?_replicate]
   split <;> rfl
 
@@ -112,7 +112,7 @@ theorem sigFrom_zero (alpha : K) (c : List K) (m k : Nat) (i : Nat) (u : List K)
   induction i with
   | zero => rfl
   | succ i ih =>
-    simp only [sigFrom, opPow, ih, getD_replicate_zero]
+    simp only [sigFrom, opPow, ih, getD_replicate_zero']
     rfl
 
 theorem length_six {β : Type} (l : List β) (h : l.length = 6) :
